@@ -119,6 +119,19 @@ class PathEnumerator:
         self.dep_filter = (lambda k: '.' not in k) if slice_deps == 'locals' else None
         self.relevant = self._slice(set(targets)) if slice_deps else set(targets)
         self._assigned_anywhere = assigned_keys(self.stmts)
+        # plain local names that guards read (`enduse = model...enduse_option.value; if enduse == ...`) are tracked as well, so that
+        # consumers can expand a guard through its aliases; only names assigned exactly once at the top level (no forking influence)
+        top_once: Dict[str, int] = {}
+        for st0 in self.stmts:
+            for st in ast.walk(st0):
+                if isinstance(st, ast.Name) and isinstance(st.ctx, ast.Store):
+                    top_once[st.id] = top_once.get(st.id, 0) + 1
+        guard_names: Set[str] = set()
+        for st in self.stmts:
+            for n in ast.walk(st):
+                if isinstance(n, ast.If):
+                    guard_names |= {x.id for x in ast.walk(n.test) if isinstance(x, ast.Name)}
+        self.relevant |= {g for g in guard_names if top_once.get(g) == 1}
 
     # ---- backward slice: which names can influence the targets
     def _slice(self, targets: Set[str]) -> Set[str]:
